@@ -16,7 +16,8 @@ _CHAN_NOTE = ("Trusts the vsim model of mutex/condition/join (POSIX semantics, s
               "wait-condition check and its sleep; abort_write+write_unmap is one writer step (as in source.c); a mapped reader maps again only "
               "in the shape the runtime can reach (it holds everything committed; refused; then unmap(0)); channel_rewind is called at arbitrary moments at which the writer is idle. "
               "The virtual clock often starts just before a full second (timespec carries) and the lap counter near 2^8 / 2^16 / 2^32. "
-              "C02 and C03 have an integration part that runs harness rt with the focus on C02 / C03 (held regions must not change; a source asleep in channel_write_map is always released).")
+              "C02 and C03 have an integration part that runs harness rt with the focus on C02 / C03 (held regions must not change; a source asleep in channel_write_map is always released); "
+              "C01-C03 have a size part that runs harness chanbig: the same channel.c with a 4.5-6 GiB sparse buffer and an extent model (byte-exact oracles only up to 4 KiB).")
 
 _RT_NOTE = ("Trusts the vsim model (POSIX mutex/condition/join semantics, sequential consistency, scheduling points at platform calls, at "
             "every 4th consecutive clock read and - in about a quarter of the cases - at generated basic-block edges of the runtime/HAL/property "
